@@ -62,12 +62,12 @@ def shards_general(tier, scale=1.0):
     if tier == "quick":
         base = [("random", 4000), ("random", 4000), ("contact", 4000), ("contact", 4000), ("contact", 4000),
                 ("diagrams", 4000), ("diagrams", 3000), ("setup", 3000), ("shuffle", 3000), ("confined", 4000), ("confined", 4000),
-                ("wide", 3000)]
+                ("wide", 3000), ("rows", 3000)]
     else:
         base = []
         for _ in range(8):
             base += [("random", 12000), ("contact", 12000), ("contact", 12000), ("diagrams", 8000), ("setup", 6000),
-                     ("shuffle", 8000), ("confined", 12000), ("wide", 8000)]
+                     ("shuffle", 8000), ("confined", 12000), ("wide", 8000), ("rows", 8000)]
     return [(d, int(n * scale)) for d, n in base]
 
 
